@@ -767,7 +767,8 @@ func main() {
 		"amounts of records are within 0..21e14 (the property's quantifier); CompressAmount wraps above (2^64-1)/9 — compared with the model there, not required to round-trip",
 		"record keys (first 8 txid bytes) are distinct inside one snapshot (key collisions are property C04's subject)",
 		"secp256k1 field arithmetic is represented in the model by plain arithmetic mod p (mathKeys); compared with ParsePubkey/IsValid/GetPublicKey on every run; KeyOps.Sound for mathKeys is PROVED without hypothesis (mathKeys_sound_unconditional: primality of p from C08's Pratt certificate); that the Go 5x52 field code computes these functions is tested here and is property C08's subject",
-		"process-level effects of save() (rename UTXO.db→UTXO.old, temp file) are not modelled; only the bytes of the final UTXO.db are",
+		"process-level effects of save() (rename UTXO.db→UTXO.old, temp file) are not modelled, only the bytes of the files are; the fallback stream lets the real save() produce both files and damages them afterwards (a crash DURING save is property C07's subject)",
+		"the loader's map-filling goroutine is folded into the reader in Model.UtxoLoad (a pack is inserted when it is sent): justified by loader_ring_safe and by the error path waiting for the goroutine before the retry (fix eab07278, property C07)",
 	}
 	if r.Replay != "" {
 		replay(r.Replay)
@@ -775,6 +776,9 @@ func main() {
 	}
 	g := r.Rng
 	stage := func(name string, f func(*vlib.Rng)) {
+		if only := os.Getenv("VERIF_C10_ONLY"); only != "" && only != name { // development aid: one stream alone
+			return
+		}
 		t := time.Now()
 		f(g)
 		r.Extra["seconds_"+name] = float64(int(time.Since(t).Seconds()*10)) / 10
@@ -802,7 +806,7 @@ func main() {
 	}
 	r.Extra["noncanonical_keys_available"] = len(ncKeys)
 	r.Finish("corpus (boundaries named in the property's quantifier) + structured generator (genRec/genScript/genAmount, all from VERIF_SEED) + malformed-bytes stream; "+
-		"a case is distinct by its full input (amount / script / record line+mode / snapshot contents); undo stream: 1..10 records committed by one block, a subset of their outputs (none / one / random / all) spent by the next block which also adds records, that block undone, with the client's recycling allocator in steady state, a poisoning allocator and the Go heap, plain and compressed; one snapshot of 11..15 loader packs with concentrated keys reloaded under GOMAXPROCS 1/2/default",
+		"a case is distinct by its full input (amount / script / record line+mode / snapshot contents); fallback stream: two-save history through the real code (1..10 records, partial / full spends, new records), then UTXO.db and UTXO.old each intact / missing / cut at a position drawn per class (header, after the header, between records, length prefix, inside a record, last byte) / header count raised, UTXO.old optionally in the other format, reopened by the real loader; one pair of snapshots longer than a loader pack cut after a whole pack; undo stream: 1..10 records committed by one block, a subset of their outputs (none / one / random / all) spent by the next block which also adds records, that block undone, with the client's recycling allocator in steady state, a poisoning allocator and the Go heap, plain and compressed; one snapshot of 11..15 loader packs with concentrated keys reloaded under GOMAXPROCS 1/2/default",
 		"Each case runs on the real gocoin code; the property predicate (what was stored comes back: whole decode, single-output lookup, snapshot reload) is evaluated on the real results, "+
 			"and every real result (serialised bytes, decoded record, lookup, compressed script/amount, snapshot file bytes, partly spent and undo-merged records) is compared with the Lean model's. "+
 			"Fixed defect "+keyNonCanon+" (fix: 06ea4281, fixed: line in known_findings.txt): uncompressed P2PK keys with X or Y ≥ p used to be accepted by ParsePubkey/IsValid, compressed, and came back with reduced (and for Y ≥ p negated) coordinates; such keys are now stored verbatim. The witnesses stay in the corpus and in every stream (record, snapshot, undo) and are judged like every other script: a mismatch there is a VIOLATION under the stream's ordinary key. "+
